@@ -155,3 +155,17 @@ def c17_scalar_subclass_sharing(case, detail):
     else agrees with pickle"""
     from .props import c17
     return c17.known_relaxed(case, 'shared-scalar-subclass')
+
+
+def c01_tag_on_structurally_consumed_node(case, detail):
+    """the tagged node is never constructed as a value: it is the mapping (or list) given directly to a merge key, an item of
+    a merge list, or the single-pair mapping entry of an !!omap / !!pairs sequence; flatten_mapping / construct_yaml_omap /
+    construct_yaml_pairs read its children without looking at its tag, so a non-core tag there is ignored, not rejected"""
+    ctx, kind = case.get('context'), case.get('kind')
+    if ctx == 'merge':
+        return kind in ('seq-empty', 'map-empty', 'map-ab', 'long', 'state-dunder')
+    if ctx == 'merge-list':
+        return kind in ('map-empty', 'map-ab', 'long', 'state-dunder')
+    if ctx in ('omap-entry', 'pairs-entry'):
+        return kind == 'map-ab'
+    return False
